@@ -241,10 +241,6 @@ def parseDec (d : Dec) : Res ErrKind Coin :=
   else if maxInt64 < amount d then .err .ErrTooLarge
   else .ok (BitVec.ofNat 64 (amount d).toNat)
 
-theorem maxDecimal_eq : maxDecimal = ⟨maxInt64, 0⟩ := by decide
-
-theorem sign_eq_neg_one_iff (i : Int) : Int.sign i = -1 ↔ i < 0 := Int.sign_eq_neg_one_iff_neg
-
 theorem parseZCN_spec (x : F64) (d : Dec) :
     ParseZCN x d = match x.val with
       | .nan => .err .ErrNotANumber
@@ -281,7 +277,7 @@ theorem parseZCN_spec (x : F64) (d : Dec) :
         have hmin : min (d.exp + 10) 0 = 0 := by omega
         have hgt : Dec.greaterThan ⟨d.coeff, d.exp + 10⟩ maxDecimal = true ↔ maxInt64 < amount d := by
           rw [maxDecimal_eq]
-          simp only [Dec.greaterThan, hmin, decide_eq_true_eq, amount]
+          simp only [Dec.greaterThan, hmin, decide_eq_true_eq, amount, maxInt64]
           simp
         by_cases hbig : maxInt64 < amount d
         · rw [if_pos (hgt.mpr hbig), if_pos hbig]
@@ -393,6 +389,26 @@ theorem zcn_roundtrip (c : Coin) (h15 : ∃ C j : Nat, c.toNat = C * 10 ^ j ∧ 
 /-- the hypotheses of `zcn_roundtrip` are satisfiable by a non-trivial amount: 1.5 ZCN -/
 example : (∃ C j : Nat, (15000000000#64 : Coin).toNat = C * 10 ^ j ∧ C < 10 ^ 15) ∧ (15000000000#64 : Coin).toNat < 2 ^ 63 :=
   ⟨⟨15, 9, by decide, by decide⟩, by decide⟩
+
+/-- the hypothesis of `zcn_roundtrip` is satisfiable for EVERY non-zero amount of at most 15 significant digits: the
+    amount written without trailing zeros is a shortest round-trip decimal of its float (no shorter decimal rounds
+    to the same float), so the round trip is a statement about a decimal that exists -/
+theorem shortestRT_exists (c : Coin) (hc : 0 < c.toNat) (h15 : ∃ C j : Nat, c.toNat = C * 10 ^ j ∧ C < 10 ^ 15) :
+    ∃ d, ShortestRT (roundNE false c.toNat (10 ^ 10)) d := by
+  obtain ⟨C, j, hC, hC15⟩ := h15
+  have hCpos : 0 < C := by
+    rcases Nat.eq_zero_or_pos C with h | h
+    · rw [h] at hC; simp at hC; omega
+    · exact h
+  obtain ⟨C', i, hC', hC'10⟩ := strip_zeros C hCpos
+  have hNC : c.toNat = C' * 10 ^ (i + j) := by rw [hC, hC', pow_add, mul_assoc]
+  have hC'15 : C' < 10 ^ 15 := by
+    have : C' ≤ C := by rw [hC']; exact Nat.le_mul_of_pos_right _ (by positivity)
+    omega
+  obtain ⟨h1, h2⟩ := shortest_exists c.toNat hc c.isLt C' (i + j) hNC hC'15 hC'10
+  refine ⟨⟨(C' : Int), ((i + j : Nat) : Int) - 10⟩, h1, Or.inl (by simp only; omega), ?_⟩
+  intro d' hd' k hk
+  simpa using h2 d' hd' k hk
 
 /-! ## no operation panics -/
 
